@@ -53,11 +53,25 @@ VARIANTS = [
         "Q": _st([_f("n", U8), _f("v", {"k": "a", "t": S("char"), "len": ["expr", "n", ["id", "n"]]}), _f("t", S("uint48"))]),
     },
 ]
+# every object also defines an enum E, a flag F (same names and members everywhere; the underlying type differs between
+# variants) and a structure W using them as scalar, data-sized array and flag members
+MEMBERS_E = [["E_A", 1], ["E_B", 2], ["E_C", 0x0102]]
+MEMBERS_F = [["F_A", 1], ["F_B", 2], ["F_C", 0x0100]]
+ENUM_BASES = [("uint16", "uint16"), ("uint16", "uint32"), ("uint32", "uint16")]
+for _i, _v in enumerate(VARIANTS):
+    _v["W"] = _st([_f("n", U8), _f("e", {"k": "e", "n": "E"}), _f("ea", {"k": "a", "t": {"k": "e", "n": "E"}, "len": ["expr", "n", ["id", "n"]]}), _f("f", {"k": "e", "n": "F"}), _f("t", U16)])
+
+
+def enums_for(variant):
+    be, bf = ENUM_BASES[variant]
+    return [{"k": "enumdef", "n": "E", "kind": "enum", "base": be, "members": MEMBERS_E}, {"k": "enumdef", "n": "F", "kind": "flag", "base": bf, "members": MEMBERS_F}]
+
+
 EXTRA = {"R": _st([_f("k", U16), _f("m", {"k": "a", "t": U32, "len": ["fixed", 2]})])}
 
 
 def defs_for(variant, extra=False):
-    d = [{"k": "structdef", "n": n, "t": t} for n, t in VARIANTS[variant].items()]
+    d = enums_for(variant) + [{"k": "structdef", "n": n, "t": t} for n, t in VARIANTS[variant].items()]
     if extra:
         d += [{"k": "structdef", "n": n, "t": t} for n, t in EXTRA.items()]
     return d
@@ -71,16 +85,18 @@ def history(draw):
     n = draw(st.integers(8, 40))
     ninst = 0
     for _ in range(n):
-        k = draw(st.sampled_from(["default", "default", "kw", "kwpartial", "parse", "parse", "set", "mutate", "mutate", "mutate", "dump", "flip", "loadmore", "alias", "failparse", "fresh"]))
+        k = draw(st.sampled_from(["default", "default", "kw", "kwpartial", "pospartial", "parse", "parse", "set", "mutate", "mutate", "mutate", "dump", "flip", "loadmore", "alias", "failparse", "fresh", "enumop", "enumop"]))
         c = draw(st.integers(0, ncs - 1))
-        tname = draw(st.sampled_from(["P", "P", "Q"]))
-        if k in ("default", "kw", "kwpartial", "parse"):
+        tname = draw(st.sampled_from(["P", "P", "Q", "W"]))
+        if k in ("default", "kw", "kwpartial", "pospartial", "parse"):
             ops.append([k, c, tname, draw(st.binary(min_size=48, max_size=48)).hex()])
             ninst += 1
         elif k in ("set", "mutate", "dump") and ninst:
             ops.append([k, draw(st.integers(0, ninst - 1)), draw(st.integers(0, 50)), draw(st.integers(0, 255))])
         elif k == "flip":
             ops.append(["flip", c, draw(st.sampled_from("<>"))])
+        elif k == "enumop":
+            ops.append(["enumop", c, draw(st.sampled_from(["E", "F"])), draw(st.binary(min_size=4, max_size=4)).hex()])
         elif k in ("loadmore", "alias", "failparse", "fresh"):
             ops.append([k, c, tname])
     return {"objs": objs, "ops": ops}
@@ -168,7 +184,7 @@ def run_case(case, ctx):
                 )
         for c, o in enumerate(objs):
             sem = sem_of(c)
-            for tname in ("P", "Q"):
+            for tname in ("P", "Q", "W"):
                 T = getattr(o["cs"], tname)
                 z = lib(T)
                 want = refsem.canon(sem.default({"k": "ref", "n": tname}))
@@ -180,15 +196,15 @@ def run_case(case, ctx):
 
     for step, op in enumerate(case["ops"]):
         k = op[0]
-        trace.append(op[:3] if k in ("default", "kw", "kwpartial", "parse") else op)
-        if k in ("default", "kw", "kwpartial", "parse"):
+        trace.append(op[:3] if k in ("default", "kw", "kwpartial", "pospartial", "parse") else op)
+        if k in ("default", "kw", "kwpartial", "pospartial", "parse"):
             _, c, tname, hexdata = op
             o = objs[c]
             sem = sem_of(c)
             node = {"k": "ref", "n": tname}
             T = getattr(o["cs"], tname)
             data = bytearray(bytes.fromhex(hexdata))
-            if tname == "Q":
+            if tname in ("Q", "W"):
                 data[0] %= 5
             data = bytes(data)
             if k == "default":
@@ -201,20 +217,20 @@ def run_case(case, ctx):
                     continue
                 if k == "parse":
                     obj = lib(T, io.BytesIO(data))
-                elif k == "kwpartial":
-                    # only the first field is given; everything else takes the type's zero value
+                elif k in ("kwpartial", "pospartial"):
+                    # only the first field is given (by keyword / positionally); everything else takes the type's zero value
                     f0 = sem.res(node)["fields"][0]
                     first = model[f0["name"]]
                     model = sem.default(node)
                     model[f0["name"]] = first
-                    obj = lib(lambda: T(**{f0["name"]: first}))
+                    obj = lib(lambda: T(**{f0["name"]: first})) if k == "kwpartial" else lib(lambda: T(first))
                 else:
                     obj = lib(libside.build_value, T, sem, node, model)
             if isinstance(obj, Err):
                 raise Violation("operation-raised", f"step {step} {op[:3]}: {obj}; history {trace}", obj.where)
             if k == "parse" and libside.cplain(obj) != refsem.canon(model):
                 raise Violation("parse-depends-on-history", f"step {step} {op[:3]}: parsed {libside.cplain(obj)!r}, reference decode under endian {o['endian']} gives {refsem.canon(model)!r}; history {trace}")
-            if k == "default" and flags["mutated_default_nested"]:
+            if k in ("default", "kwpartial", "pospartial") and flags["mutated_default_nested"]:
                 flags["default_after_mutation"] = True
             inst.append({"obj": obj, "model": copy.deepcopy(model), "c": c, "t": tname, "origin": k, "appended": False})
         elif k in ("set", "mutate"):
@@ -256,7 +272,7 @@ def run_case(case, ctx):
             if isinstance(r, Err):
                 raise Violation("operation-raised", f"step {step} {kind} at {path}: {r}; history {trace}", r.where)
             trace[-1] = [k, idx, kind, list(path), j, val]
-            if it["origin"] in ("default", "kwpartial") and kind in ("elem", "nested", "append"):
+            if it["origin"] in ("default", "kwpartial", "pospartial") and kind in ("elem", "nested", "append"):
                 flags["mutated_default_nested"] = True
         elif k == "dump":
             _, idx, _, _ = op
@@ -275,6 +291,26 @@ def run_case(case, ctx):
                 continue
             if isinstance(d, Err) or d != want:
                 raise Violation("dump-depends-on-history", f"step {step}: instance #{idx} dumps {d!r}, reference encoding of its value under the current endianness {want.hex()}; history {trace}")
+        elif k == "enumop":
+            # the enum / flag type of THIS object, used directly: parse and dump follow this object's underlying type and
+            # current endianness, whatever other objects with a same-named, same-membered enum did in between
+            _, c, ename, hexdata = op
+            o = objs[c]
+            sem = sem_of(c)
+            node = {"k": "e", "n": ename}
+            data = bytes.fromhex(hexdata)
+            model, end = sem.decode(node, data, 0)
+            ET = getattr(o["cs"], ename)
+            s_ = io.BytesIO(data)
+            r = lib(ET, s_)
+            if isinstance(r, Err) or libside.cplain(r) != refsem.canon(model) or s_.tell() != end:
+                raise Violation("parse-depends-on-history", f"step {step}: {ename}({data.hex()}) of cstruct {c} gave {r!r} at {s_.tell()}, reference under endian {o['endian']}: {model} at {end}; history {trace}")
+            d = lib(lambda: ET(model).dumps())
+            want = bytes(sem.encode(node, model))
+            if isinstance(d, Err) or d != want:
+                raise Violation("dump-depends-on-history", f"step {step}: {ename}({model}).dumps() of cstruct {c} gave {d!r}, reference {want.hex()}; history {trace}")
+            if ET.cs is not o["cs"]:
+                raise Violation("type-bound-to-another-object", f"step {step}: {ename} of cstruct {c} is bound to another cstruct object; history {trace}")
         elif k == "flip":
             _, c, e = op
             objs[c]["cs"].endian = e
@@ -320,7 +356,9 @@ def run_case(case, ctx):
     ctx.count("steps", len(case["ops"]))
     if flags["default_after_mutation"]:
         ctx.count("history:default-after-in-place-mutation-of-a-default")
-    multi = len(objs) >= 2 and len(variants) >= 2 and len({op[1] for op in case["ops"] if op[0] in ("default", "kw", "kwpartial", "parse")}) >= 2
+    if any(op[0] == "enumop" for op in case["ops"]):
+        ctx.count("history:uses-enum-types-directly")
+    multi = len(objs) >= 2 and len(variants) >= 2 and len({op[1] for op in case["ops"] if op[0] in ("default", "kw", "kwpartial", "pospartial", "parse")}) >= 2
     if multi:
         ctx.count("history:interleaves-objects-with-same-named-types")
     if flags["default_after_mutation"] or multi:
